@@ -19,6 +19,7 @@ import (
 	"github.com/ipfs/go-graphsync/donotsendfirstblocks"
 	"github.com/ipfs/go-graphsync/ipldutil"
 	gsmsg "github.com/ipfs/go-graphsync/message"
+	"github.com/ipfs/go-graphsync/panics"
 	"github.com/ipfs/go-graphsync/requestmanager/hooks"
 	"github.com/ipfs/go-graphsync/requestmanager/types"
 )
@@ -48,17 +49,25 @@ type ReconciledLoader interface {
 // It has control of requests when they are in the "running" state, while
 // the manager is in charge when requests are queued or paused
 type Executor struct {
-	manager    Manager
-	blockHooks BlockHooks
+	manager      Manager
+	blockHooks   BlockHooks
+	panicHandler panics.PanicHandler
 }
 
-// NewExecutor returns a new executor
+// NewExecutor returns a new executor. An optional panic callback is told about
+// panics recovered while a request's task is executing.
 func NewExecutor(
 	manager Manager,
-	blockHooks BlockHooks) *Executor {
+	blockHooks BlockHooks,
+	panicCallback ...panics.CallBackFn) *Executor {
+	var callback panics.CallBackFn
+	if len(panicCallback) > 0 {
+		callback = panicCallback[0]
+	}
 	return &Executor{
-		manager:    manager,
-		blockHooks: blockHooks,
+		manager:      manager,
+		blockHooks:   blockHooks,
+		panicHandler: panics.MakeHandler(callback),
 	}
 }
 
@@ -115,7 +124,14 @@ type RequestTask struct {
 	ReconciledLoader     ReconciledLoader
 }
 
-func (e *Executor) traverse(rt RequestTask) error {
+func (e *Executor) traverse(rt RequestTask) (err error) {
+	defer func() {
+		// the loads and hooks below run user supplied code (storage, block hooks) on
+		// this worker; a panic there fails this request only, like one in the traversal
+		if panicErr := e.panicHandler(recover()); panicErr != nil {
+			err = panicErr
+		}
+	}()
 	requestSent := false
 	// for initial request, start remote right away
 	for {
